@@ -56,9 +56,9 @@ func buildProgram(t Tree, start bool, rot int) *program {
 				continue
 			}
 			switch t[c].Kind {
-			case 'm':
+			case 'm', 'v':
 				fidx[c] = m.ImportFunc(fmt.Sprintf("m%d", l+1), fname(c), p.sigs[c].P, p.sigs[c].R)
-			case 'h':
+			case 'h', 'w':
 				fidx[c] = m.ImportFunc("env", hname(c), p.sigs[c].P, p.sigs[c].R)
 			}
 		}
@@ -76,7 +76,7 @@ func buildProgram(t Tree, start bool, rot int) *program {
 		slot := map[int]int32{}
 		var elems []uint32
 		for _, i := range locals {
-			if t[i].Kind == 'i' {
+			if t[i].Kind == 'i' || t[i].Kind == 'u' {
 				slot[i] = int32(len(elems)) + 1 // slot 0 stays null
 				elems = append(elems, fidx[i])
 			}
@@ -110,8 +110,11 @@ func buildProgram(t Tree, start bool, rot int) *program {
 					a.Call(fidx[c])
 				case 'i':
 					a.I32Const(slot[c]).CallIndirect(m.Type(cs.P, cs.R), 0)
-				case 't':
+				case 't', 'v', 'w':
 					a.ReturnCall(fidx[c])
+					tailed = true
+				case 'u':
+					a.I32Const(slot[c]).ReturnCallIndirect(m.Type(cs.P, cs.R), 0)
 					tailed = true
 				}
 				if tailed {
